@@ -21,6 +21,8 @@ class Undecided(Exception):
 def eval_pred(node, name, name_exprs):
   """Abstractly evaluate the name predicate for a concrete method-name shape.  Type tests
   (ismethod/isfunction/isroutine) are True, isbuiltin is False (a plain python method)."""
+  if isinstance(node, ast.Constant) and isinstance(node.value, bool):
+    return node.value
   if isinstance(node, ast.BoolOp):
     vals = [eval_pred(v, name, name_exprs) for v in node.values]
     return all(vals) if isinstance(node.op, ast.And) else any(vals)
@@ -69,41 +71,69 @@ def check(ctx):
   r4(ctx)
 
 
+def table_builders(f, iface):
+  """Places where a proxy-method table is filled: dict comprehensions or for-loops over an
+  enumeration of the interface.  -> list of dict(form, iter, key, name_expr, args, kws, dest)"""
+  out = []
+  for n in walk_no_nested(f.node):
+    if isinstance(n, ast.DictComp) and isinstance(n.value, ast.Call) and U(n.value.func) == 'ProxyMethod':
+      g = n.generators[0]
+      var = U(g.target)
+      key = U(n.key).replace(' ', '').replace('"', "'")
+      base = '%s[0]' % var
+      args = n.value.args
+      std_args = len(args) == 1 and isinstance(args[0], ast.Starred) and U(args[0].value) == var
+      out.append({'iter': g.iter, 'filtered': bool(g.ifs), 'asyn': key == base + "+'_async'", 'sync': key == base, 'std_args': std_args,
+                  'kws': dict((k.arg, U(k.value)) for k in n.value.keywords), 'node': n})
+    elif isinstance(n, ast.For) and isinstance(n.target, ast.Tuple) and len(n.target.elts) == 2:
+      a, b = [U(e) for e in n.target.elts]
+      sts = [st for st in n.body if isinstance(st, ast.Assign) and isinstance(st.targets[0], ast.Subscript) and isinstance(st.value, ast.Call) and U(st.value.func) == 'ProxyMethod']
+      if len(sts) != 1:
+        continue
+      st = sts[0]
+      key = U(st.targets[0].slice).replace(' ', '').replace('"', "'")
+      std_args = [U(x) for x in st.value.args] == [a, b]
+      extra = [x for x in n.body if x is not st and not (isinstance(x, ast.Expr) and isinstance(x.value, ast.Constant))]
+      out.append({'iter': n.iter, 'filtered': bool(extra), 'asyn': key == a + "+'_async'", 'sync': key == a, 'std_args': std_args,
+                  'kws': dict((k.arg, U(k.value)) for k in st.value.keywords), 'node': n, 'dest': U(st.targets[0].value)})
+  return out
+
+
 def r1(ctx, f):
   iface = f.params[0]
   why = ('every public method (including inherited ones) must exist in a blocking and an _async form; building the two tables from '
          'different enumerations, or from the class dict only, drops or mismatches methods')
-  comps = [n for n in walk_no_nested(f.node) if isinstance(n, ast.DictComp)]
+  builders = table_builders(f, iface)
   enums = []
   kinds = {}
-  for c in comps:
-    g = c.generators[0]
-    it = g.iter
-    var = U(g.target)
+  for b in builders:
+    it = b['iter']
     enums.append(U(it))
-    ok_it = (isinstance(it, ast.Call) and U(it.func) == 'inspect.getmembers' and len(it.args) == 2 and U(it.args[0]) == iface and not g.ifs)
-    key = U(c.key).replace(' ', '')
-    val = c.value
-    is_async = key in ('%s[0]+"_async"' % var, "%s[0]+'_async'" % var)
-    is_sync = key == '%s[0]' % var
-    okv = isinstance(val, ast.Call) and U(val.func) == 'ProxyMethod' and len(val.args) == 1 and isinstance(val.args[0], ast.Starred) and U(val.args[0].value) == var
-    if okv:
-      kws = dict((k.arg, U(k.value)) for k in val.keywords)
-      okv = (kws == {'asynchronous': 'True'}) if is_async else (kws == {} and is_sync)
-    kinds['async' if is_async else 'sync' if is_sync else 'other:' + key] = ok_it and okv
-    ctx.ob('C20.R1', f, 'proxy table %s' % ('async' if is_async else 'sync' if is_sync else key), ok_it and okv and (is_async or is_sync),
-           'table built as {%s: %s for %s in %s}' % (U(c.key), U(val), var, U(it)), why)
-  ctx.ob('C20.R1', f, 'both forms exist', kinds.get('sync') is True and kinds.get('async') is True, 'tables found: %s' % kinds, why)
+    ok_it = (isinstance(it, ast.Call) and U(it.func) == 'inspect.getmembers' and len(it.args) == 2 and U(it.args[0]) == iface and not b['filtered'])
+    okv = b['std_args'] and ((b['kws'] == {'asynchronous': 'True'}) if b['asyn'] else (b['kws'] == {} and b['sync']))
+    nm = 'async' if b['asyn'] else 'sync' if b['sync'] else 'other'
+    kinds[nm] = ok_it and okv
+    ctx.ob('C20.R1', f, 'proxy table %s' % nm, ok_it and okv and (b['asyn'] or b['sync']),
+           'table built from %s with key/args/kws sync=%s async=%s std_args=%s kws=%s' % (U(it), b['sync'], b['asyn'], b['std_args'], b['kws']), why)
+  ctx.ob('C20.R1', f, 'both forms exist', kinds.get('sync') is True and kinds.get('async') is True and len(builders) == 2, 'tables found: %s' % kinds, why)
   ctx.ob('C20.R1', f, 'both forms come from the same enumeration', len(enums) == 2 and enums[0] == enums[1], 'enumerations: %s' % enums, why)
   # both tables end up in the proxy type's namespace
   tcall = [c for c in walk_no_nested(f.node) if isinstance(c, ast.Call) and isinstance(c.func, ast.Name) and c.func.id == 'type' and len(c.args) == 3]
   ok = False
-  if len(tcall) == 1 and len(comps) == 2:
+  if len(tcall) == 1 and len(builders) == 2:
     ns = U(tcall[0].args[2])
-    asg = [st for st in walk_no_nested(f.node) if isinstance(st, ast.Assign) and U(st.targets[0]) == ns and st.value in comps]
-    upd = [c for c in walk_no_nested(f.node) if isinstance(c, ast.Call) and call_attr(c) == 'update' and U(c.func.value) == ns and c.args and c.args[0] in comps]
+    dests = set()
+    for b in builders:
+      n = b['node']
+      if isinstance(n, ast.DictComp):
+        asg = [st for st in walk_no_nested(f.node) if isinstance(st, ast.Assign) and st.value is n]
+        upd = [c for c in walk_no_nested(f.node) if isinstance(c, ast.Call) and call_attr(c) == 'update' and c.args and c.args[0] is n]
+        dests |= set(U(st.targets[0]) for st in asg) | set(U(c.func.value) for c in upd)
+      else:
+        dests.add(b.get('dest'))
+    merged = set(U(c.func.value) for c in walk_no_nested(f.node) if isinstance(c, ast.Call) and call_attr(c) == 'update' and c.args and U(c.args[0]) in dests)
     bases = tcall[0].args[1]
-    ok = len(asg) == 1 and len(upd) == 1 and isinstance(bases, ast.Tuple) and [U(b) for b in bases.elts] == ['_ProxyBase', iface]
+    ok = (ns in dests) and all(d == ns or ns in merged for d in dests) and isinstance(bases, ast.Tuple) and [U(x) for x in bases.elts] == ['_ProxyBase', iface]
   ctx.ob('C20.R1', f, 'proxy class = type(name, (_ProxyBase, Iface), both tables)', ok, 'proxy class construction changed', why)
   pops = [c for c in walk_no_nested(f.node) if isinstance(c, ast.Call) and call_attr(c) == 'pop']
   ctx.ob('C20.R1', f, "only '__init__' is removed from the tables", all(U(c.args[0]) == "'__init__'" for c in pops), 'removed: %s' % [U(c) for c in pops], why, nontrivial=False)
@@ -116,19 +146,37 @@ def r1(ctx, f):
   inner = inner[0]
   flag = pm.params[2] if len(pm.params) > 2 else None
   rets = [n for n in walk_no_nested(inner.node) if isinstance(n, ast.Return)]
-  ok = False
-  if len(rets) == 1 and flag:
-    v = rets[0].value
-    res = None
-    for st in walk_no_nested(inner.node):
-      if isinstance(st, ast.Assign) and isinstance(st.value, ast.Call) and call_attr(st.value) == 'DispatchMethodCall':
-        res = U(st.targets[0])
-    if isinstance(v, ast.IfExp) and res:
-      t = U(v.test)
-      if t == flag:
-        ok = U(v.body) == res and U(v.orelse).replace(' ', '') == '%s.get()' % res
-      elif t.replace(' ', '') == 'not%s' % flag:
-        ok = U(v.orelse) == res and U(v.body).replace(' ', '') == '%s.get()' % res
+  ok = bool(flag)
+  seen = set()
+  if flag:
+    for ev, ex in enum_paths(ctx, inner):
+      if ex[0] != 'ret':
+        continue
+      r = [e for e in ev if e.kind == 'ret'][-1].node
+      res = None
+      for e in ev:
+        if e.kind == 'stmt' and isinstance(e.node, ast.Assign) and isinstance(e.node.value, ast.Call) and call_attr(e.node.value) == 'DispatchMethodCall':
+          res = U(e.node.targets[0])
+      facts = FACTS(ev)
+      truths = [t for t in (True, False) if (flag, t) in facts]
+      v = r.value
+      cases = []
+      if isinstance(v, ast.IfExp) and not truths:
+        t = U(v.test).replace(' ', '')
+        if t == flag:
+          cases = [(True, v.body), (False, v.orelse)]
+        elif t == 'not' + flag:
+          cases = [(False, v.body), (True, v.orelse)]
+      elif len(truths) == 1 and v is not None:
+        cases = [(truths[0], v)]
+      if not cases or res is None:
+        ok = False
+      for t, expr in cases:
+        seen.add(t)
+        got = U(expr).replace(' ', '')
+        if got != (res if t else '%s.get()' % res):
+          ok = False
+    ok = ok and seen == {True, False}
   ctx.ob('C20.R1', inner, 'async form returns the pending result, blocking form its get()', ok, 'return is %s' % (U(rets[0]) if rets else None),
          'the blocking form returns the value or raises; the _async form must not block')
   d = pm.node.args.defaults
@@ -179,18 +227,27 @@ def r3(ctx, f):
   if pred is None:
     # predicate passed to getmembers
     raise AnalysisError('name predicate is_user_method not found')
-  rets = [n for n in walk_no_nested(pred.node) if isinstance(n, ast.Return)]
-  if len(rets) != 1:
-    raise AnalysisError('name predicate has %d returns' % len(rets))
   m = pred.params[0]
   name_exprs = {'ClientProxyBuilder._method_name(%s)' % m, '%s.__name__' % m, 'name'}
-  # local alias name = ...
   for st in walk_no_nested(pred.node):
     if isinstance(st, ast.Assign) and U(st.value) in name_exprs:
       name_exprs.add(U(st.targets[0]))
+  paths = [(ev, ex) for ev, ex in enum_paths(ctx, pred) if ex[0] == 'ret']
   for shape, want in sorted(NAME_SHAPES.items()):
+    got = None
+    what = ''
     try:
-      got = eval_pred(rets[0].value, shape, name_exprs)
+      for ev, ex in paths:
+        feasible = True
+        for e in ev:
+          if e.kind == 'cond' and eval_pred(e.node, shape, name_exprs) != e.info:
+            feasible = False
+            break
+        if not feasible:
+          continue
+        r = [e for e in ev if e.kind == 'ret'][-1].node
+        got = eval_pred(r.value, shape, name_exprs) if r.value is not None else False
+        break
       ok = got == want
       what = "name shape %r is %s" % (shape, 'accepted' if got else 'rejected')
     except Undecided as e:
